@@ -1,8 +1,11 @@
 """C04 - every raised exception becomes the response its most specific handler defines."""
 PROP = 'C04'
-LEAN_MODULES = ['FalconModel.ErrHandlers', 'FalconModel.ErrHandleProofs', 'FalconModel.ErrSerialize', 'FalconModel.ErrSerializeProofs', 'FalconModel.ErrBody', 'FalconModel.ErrBodyProofs']
+LEAN_MODULES = ['FalconModel.ErrHandlers', 'FalconModel.ErrHandleProofs', 'FalconModel.ErrSerialize', 'FalconModel.ErrSerializeProofs', 'FalconModel.ErrBody', 'FalconModel.ErrBodyProofs', 'FalconModel.ErrLink', 'FalconModel.ErrLinkProofs']
 DRIVERS = ['ehdriver', 'esdriver']
 THEOREMS = [
+    # falcon/http_error.py HTTPError.__init__ with the real encoder: 'href': uri.encode(href) (model Ek.mkError = Es.mkError with enc := Us.encode, the C10 str-level model)
+    'Ek.link_href_faithful', 'Ek.encHref_injective', 'Ek.toCp_encHref', 'Ek.validStr_toCp', 'Ek.toCp_ofCp_ascii', 'Ek.toCp_injective',
+    'Us.decode_encode_uri_str', 'Us.encode_charset',
     # falcon/app.py add_error_handler + _find_error_handler (model Eh.register / Eh.lookup / Eh.find)
     'Eh.lookup_append_single', 'Eh.latest_registration_wins', 'Eh.other_class_unaffected', 'Eh.find_most_specific', 'Eh.find_none_iff',
     # falcon/app.py _handle_exception (model Eh.handle)
@@ -61,6 +64,10 @@ STATEMENTS = {
     'Es.serialize_typeOnly_only': 'a Content-Type without a body arises only when XML is disabled and the preferred non-JSON type has no handler; with real handlers only through the "+xml" heuristic',
     'Es.serialize_media_only_if_handler': 'resp.media = to_dict() is used only for a preferred non-JSON type that a configured handler resolves',
     'Es.to_dict_fields_exact': 'to_dict() is exactly [title] + [description if not None] + [code if not None] + [link if not None], in this order, with the attribute values',
+    'Ek.link_href_faithful': 'for EVERY non-empty href (a str of Unicode scalar values) and all other constructor arguments the stored link href is uri.encode(href), consists of ASCII RFC 3986 unreserved/reserved characters, "%" and upper-case hex digits only, and uri.decode(link.href, unquote_plus=False) is exactly the href given - a well-formed %XX in the href is NOT taken for an escape',
+    'Ek.encHref_injective': 'two different hrefs never produce the same link href',
+    'Ek.toCp_encHref': 'the link href read as code points is Us.encode (the C10 str-level model of uri.encode) of the href\'s code points',
+    'Us.decode_encode_uri_str': 'decode(encode(s), unquote_plus=False) = s for every str s of Unicode scalar values (C10 model, used by Ek.link_href_faithful)',
     'Es.mk_error_fields': 'HTTPError.__init__: title falls back to the status line iff missing/empty; link exists iff href is non-empty and carries encode(href), rel=help and the given or default text',
     'Es.vary_accept_always_appended': 'after _compose_error_response the Vary header exists, is "Accept" or "<previous value>, Accept", and Accept is one of its comma-separated members',
     'Es.httperror_status_headers_kept': 'the response status is the error\'s; the last item per case-insensitive name of error.headers is on the response (Vary with ", Accept" appended, Content-Type unless a rendering replaces it); other headers keep their value',
@@ -94,7 +101,16 @@ ASSUMPTIONS = [
     'media handler objects are truthy and none is registered under the literal key "*/*" (needed only by Es.serialize_xml_type and the second half of Es.serialize_typeOnly_only)',
     'Accept headers come from a well-formed grammar of up to 3 media ranges with q in {absent, 0, 0.1, 0.5, 0.9, 1}, in any letter case (see above)',
 ]
-RULE = ('[dimension added after seed C04_15 - part (e): THE SAME CLASS RAISED MORE THAN ONCE IN ONE PROCESS. Inventory: every public class of falcon.errors / falcon.redirects / falcon.http_status / falcon.http_error that is '
+RULE = ('[dimension added after seed C04_16 - THE CONTENT OF href / href_text: parts (c), (d) and the pools of (e) draw the href from token pools so that every role of "%" occurs ALONE as well as mixed: '
+        'well-formed %XX (upper / lower / mixed-case hex, %25, %2525, %00, %FF, UTF-8 sequences) in a string with nothing else to escape (the one class in which an "already escaped?" heuristic differs '
+        'from plain percent-encoding), malformed ones (%, %%, %z, %zz, %2, %2G, %u00e9, "% 20", % + non-ASCII / full-width digits), a trailing % / %2 / %a, percent signs next to characters that need '
+        'escaping (space, quotes, <>, backslash, non-ASCII incl. astral and combining, controls), reserved characters incl. "+", on absolute / relative / scheme-less / empty bases, as the whole href; '
+        'href_text = the same string, another such string, arbitrary text or None; all combined with the other constructor arguments, Accept headers, raise sites and both stacks as before. Judged by a new '
+        'oracle in addition to the exact comparison with the reference encoder: the href found in the emitted JSON / XML / media-handler document (stdlib parsers) and in to_dict() consists of RFC 3986 '
+        'characters only (every % starts a %XX triplet) and urllib.parse.unquote (strict UTF-8) of it is exactly the href the application passed; href_text is emitted verbatim. Correspondence: the href '
+        'content goes to the model (esdriver op `link`: Ek.mkError = __init__ with Us.encode, the C10 model of uri.encode) and the stored / emitted link href must be equal code point by code point. '
+        'Counters c_href_* / d_href_* show the classes (every_percent_wellformed_nothing_else_to_escape etc.).] '
+        '[dimension added after seed C04_15 - part (e): THE SAME CLASS RAISED MORE THAN ONCE IN ONE PROCESS. Inventory: every public class of falcon.errors / falcon.redirects / falcon.http_status / falcon.http_error that is '
         'rendered as a response (47 on the unchanged tree: HTTPError + 41 subclasses incl. the Media* / Multipart errors and the deprecated alias HTTPPayloadTooLarge, HTTPStatus, the five redirects), its constructor parameters read from the signature. '
         'Per class sequences of 3-7 constructor calls (even rounds: bare, bare, full, bare, random, random, the first call again; odd rounds: random): `bare` = required arguments only - every optional one LEFT OUT -, `full` = every optional one given, '
         'required arguments (location, allowed_methods, resource_length, msg, header_name, param_name, media_type, status) always other than in the previous call, optional ones (title, description, headers as a fresh dict / list, challenges, retry_after, code, href, '
@@ -967,6 +983,71 @@ def _rand_text(rnd, xml_safe, maxlen=12):
     return ''.join(rnd.choice(rnd.choice(pools)) for _ in range(n))
 
 
+_URI_KEEP = frozenset('ABCDEFGHIJKLMNOPQRSTUVWXYZabcdefghijklmnopqrstuvwxyz0123456789-._~' + ":/?#[]@!$&'()*+,;=")
+_HREF_BASE = ['https://docs.example.com/errors/quota', 'http://example.com/a/b', '/rel/doc', 'doc', '', '', '//host:8080/p', 'urn:x:y', "https://[::1]:8/p;v=1", 'http://example.com/wiki/']
+_HREF_PCT_OK = ['%25', '%20', '%2F', '%2f', '%C3%A9', '%c3%a9', '%e2%82%AC', '%41', '%7e', '%00', '%FF', '%ff', '%2525', '%aB', '%0a', '%3C%3e']
+_HREF_PCT_BAD = ['%', '%%', '%z', '%zz', '%2', '%2G', '%g1', '%u00e9', '%-1', '%+5', '% 20', '%\xe9\xe9', '%\uff12\uff15']
+_HREF_SAFE = ['?used=100', '&q=50', 'off', '#frag', '+', 'a+b', '=', ':', '@', "!$&'()*,;", '[]', '~', '-._', '/', '?', '0', 'A', 'z9']
+_HREF_OTHER = [' ', '  ', '\xe9', '\u4e2d\u6587', '\U0001f600', '"', '<', '>', '\\', '^', '`', '{|}', 'e\u0301', '\u202e', '\t', '\n', '&amp;', ']]>', '\x7f', '\xa0', '\uff05']
+_HREF_OTHER_NOXML = ['\x00', '\x01', '\r', '\x1f', '\ufffe']
+_HREF_SHAPES = ['wellformed_pct_only', 'wellformed_pct_only', 'wellformed_pct_only', 'malformed_pct', 'trailing_pct', 'pct_and_other', 'other_only', 'safe_only', 'mix', 'only_a_percent_token']
+
+
+def _rand_href(rnd, xml_safe):
+    """(shape, href): the CONTENT of an error link. Built from tokens so that every role of '%' occurs on its own: a well-formed %XX (upper / lower /
+    mixed case hex, %25 itself, %2525) in a string with NOTHING else to escape, a malformed one (`%`, `%%`, `%zz`, `%2`, `%u00e9`, full-width digits),
+    a trailing `%` / `%2`, percent signs next to characters that need escaping (space, quotes, <>, non-ASCII, controls), reserved characters incl. '+',
+    at the start (empty base), in the middle and at the end of absolute / relative / scheme-less references."""
+    other = _HREF_OTHER + ([] if xml_safe else _HREF_OTHER_NOXML)
+    shape = rnd.choice(_HREF_SHAPES)
+    n = rnd.choice([1, 1, 2, 3, 5])
+    if shape == 'only_a_percent_token':
+        return shape, rnd.choice(_HREF_PCT_OK + _HREF_PCT_BAD)
+    pools = {'wellformed_pct_only': [_HREF_PCT_OK, _HREF_PCT_OK, _HREF_SAFE], 'malformed_pct': [_HREF_PCT_BAD, _HREF_PCT_OK, _HREF_SAFE],
+             'trailing_pct': [_HREF_PCT_OK, _HREF_SAFE], 'pct_and_other': [_HREF_PCT_OK, _HREF_PCT_BAD, other, _HREF_SAFE], 'other_only': [other, _HREF_SAFE],
+             'safe_only': [_HREF_SAFE], 'mix': [_HREF_PCT_OK, _HREF_PCT_BAD, other, _HREF_SAFE]}[shape]
+    toks = [rnd.choice(rnd.choice(pools)) for _ in range(n)]
+    must = {'wellformed_pct_only': _HREF_PCT_OK, 'malformed_pct': _HREF_PCT_BAD, 'pct_and_other': _HREF_PCT_OK}.get(shape)
+    if must and not any(t in must for t in toks):
+        toks[rnd.randrange(len(toks))] = rnd.choice(must)
+    if shape == 'pct_and_other' and not any(t in other for t in toks):
+        toks.insert(rnd.randrange(len(toks) + 1), rnd.choice(other))
+    if shape == 'trailing_pct':
+        toks.append(rnd.choice(['%', '%2', '%a', '%%']))
+    return shape, rnd.choice(_HREF_BASE) + ''.join(toks)
+
+
+def _href_class(href):
+    """which of the classes of the href dimension a string is in (for the input-distribution table)"""
+    import re
+    if '%' not in href:
+        return 'no_percent' + ('' if set(href) <= _URI_KEEP else '_needs_escaping')
+    wf = all(re.match('[0-9A-Fa-f]{2}', t) for t in href.split('%')[1:])
+    rest = set(href) <= _URI_KEEP | {'%'}
+    return ('every_percent_wellformed' if wf else 'some_percent_malformed') + ('_nothing_else_to_escape' if rest else '_and_other_characters_to_escape')
+
+
+def _href_faithful(emitted, href):
+    """the faithful-encoding reading of the statement for the link: what the document carries is a URI reference in RFC 3986 characters only (every '%'
+    starts a %XX triplet) and percent-DECODING it (urllib, strict UTF-8 - not falcon code) gives back exactly the href the application passed"""
+    import re
+    import urllib.parse
+    if not isinstance(emitted, str):
+        return f'link href is not a string: {emitted!r}'
+    bad = sorted(set(emitted) - _URI_KEEP - {'%'})
+    if bad:
+        return f'link href {emitted!r} contains {bad!r}, which are not RFC 3986 unreserved / reserved characters'
+    if re.search('%(?![0-9A-Fa-f]{2})', emitted):
+        return f'link href {emitted!r} contains a % that does not start a %XX triplet'
+    try:
+        back = urllib.parse.unquote(emitted, encoding='utf-8', errors='strict')
+    except UnicodeDecodeError as e:
+        return f'link href {emitted!r} does not percent-decode to UTF-8: {e}'
+    if back != href:
+        return f'link href {emitted!r} percent-decodes to {back!r}, the application gave {href!r}'
+    return None
+
+
 VND_JSON = 'application/vnd.acme+json'
 
 
@@ -994,6 +1075,8 @@ def _recase_range(rnd, mt):
     return _recase(rnd, t) + '/' + sub
 _SIMPLE_RANGE = __import__('re').compile(r'^\s*(\*|\*/\*|[A-Za-z0-9.+-]+/(?:[A-Za-z0-9.+-]+|\*))\s*(;\s*[qQ]=\s*([0-9]*\.?[0-9]+))?\s*$')
 LINK_DEFAULT = 'Documentation related to this error'
+NAME_LINK = ('the link of the emitted error document is a faithful encoding of the href: RFC 3986 characters only, and percent-decoding it (urllib) gives back '
+             'exactly the href the application passed; href_text verbatim')
 
 
 def _hx(t):
@@ -1004,6 +1087,19 @@ def _hx(t):
 def _flag(v):
     """how the Es driver is told about an optional string argument: None / empty / given (the content is irrelevant to the model)"""
     return 'none' if v is None else ('-' if v == '' else '41')
+
+
+def _cps(v):
+    """a str argument whose CONTENT matters to the model (esdriver op `link`): none / - / dot-separated hex code points"""
+    return 'none' if v is None else ('-' if v == '' else '.'.join('%x' % ord(c) for c in v))
+
+
+def _link_reply(doc):
+    """`link` reply of the driver for the link found in a decoded error document / to_dict()"""
+    l = doc.get('link')
+    if not isinstance(l, dict):
+        return 'nolink'
+    return f"href={_cps(l.get('href')) if isinstance(l.get('href'), str) else '?'} text={'default' if l.get('text') == LINK_DEFAULT else 'given'}"
 
 
 def _doc_fields(doc, status_line):
@@ -1031,6 +1127,7 @@ def _serialization(ctx):
     name_http = 'default HTTPError response: own status and headers, Vary: Accept, body = faithful encoding (JSON unless the client prefers XML / a configured type) of title/description/code/link'
     name_status = 'default HTTPStatus response: its status, headers and text'
     name_plain = 'any other Exception: 500 with the JSON error body, never escapes'
+    name_link = NAME_LINK
     sess = ctx.session('default rendering by the app (WSGI+ASGI): Content-Type chosen / body presence / field set / status and headers = '
                        'Es.serializeChoice, Es.toDict, Es.composeError, Es.composeStatus', 'esdriver')
 
@@ -1172,8 +1269,15 @@ def _serialization(ctx):
         code = rnd.choice([None, None, 0, 7, -5, 2 ** 40])
         href = rnd.choice([None, None, 'http://example.com/' + _rand_text(rnd, xml_possible), _rand_text(rnd, xml_possible)])
         href_text = rnd.choice([None, _rand_text(rnd, xml_possible)])
+        href_shape = None
+        if rnd.random() < 0.5:
+            # the CONTENT of the link: percent signs in every role, reserved / non-ASCII characters, spaces, '+' (with the other arguments as drawn above)
+            href_shape, href = _rand_href(rnd, xml_possible)
+            r_ = rnd.random()
+            if r_ < 0.2: href_text = href                                  # the text is emitted verbatim, the href encoded
+            elif r_ < 0.4: href_text = _rand_href(rnd, xml_possible)[1]
         if site == 'noroute':
-            title = desc = code = href = href_text = None
+            title = desc = code = href = href_text = href_shape = None
         st_status = rnd.choice([200, 201, 202, 299, 301, 404, '201 Created', http.HTTPStatus.ACCEPTED])
         st_text = rnd.choice([None, '', _rand_text(rnd, False, 30)])
 
@@ -1358,6 +1462,15 @@ def _serialization(ctx):
                     what = f'{mt} body ({enc}) decodes to {doc!r}, the error is {exp!r}'
             what = sse_what or what
             ctx.oracle(name_http, what is None, what, case)
+            if href and isinstance(doc, dict) and isinstance(doc.get('link'), dict) and r.escaped is None:
+                lw = _href_faithful(doc['link'].get('href'), href)
+                if lw is None and doc['link'].get('text') != (href_text or LINK_DEFAULT):
+                    lw = f'link text {doc["link"].get("text")!r}, the application gave href_text={href_text!r}'
+                ctx.oracle(name_link, lw is None, None if lw is None else f'{mt} body ({enc}): {lw}', case)
+                ctx.count('c_href_' + _href_class(href))
+                ctx.count(f'c_href_judged_in_{enc}_document_{stack}')
+                if href_shape: ctx.count('c_href_shape_' + href_shape)
+                if href_text is not None and '%' in href_text: ctx.count('c_href_text_with_percent' + ('_same_as_href' if href_text == href else ''))
         # ---- correspondence with the Es model (everything above is independent of it)
         if stale_open_hit:
             ctx.count('c_stale_stream_sent_error_defines_no_body_(not_judged)')
@@ -1385,6 +1498,7 @@ def _serialization(ctx):
                 if isinstance(doc, dict):
                     if kind == 'http':
                         sess.op(f'todict {_flag(title)} {_flag(desc)} {"none" if code is None else code} {_flag(href)} {_flag(href_text)}', _doc_fields(doc, code_int))
+                        sess.op(f'link {_cps(href)} {_flag(href_text)}', _link_reply(doc))
                     else:
                         sess.op('todict none none none none none', _doc_fields(doc, '500 Internal Server Error'))
                 sets_ct = choice != 'none'
@@ -1431,7 +1545,7 @@ ARG_POOL = {
     'retry_after': [30, 120, 1, 86400],
     'title': ['First title', 'Second', 'Tétle 3'], 'description': ['first description', 'another one', 'd3'],
     'headers': [{'X-First': '1'}, {'X-Second': 'b', 'X-Third': 'c'}, [('X-List', 'l')], {'X-Request-Id': 'r-77'}, {}],
-    'code': [7, 42, 1000], 'href': ['http://example.com/doc/1', '/doc 2', 'http://example.com/é'], 'href_text': ['read this', 'docs'],
+    'code': [7, 42, 1000], 'href': ['http://example.com/doc/1', '/doc 2', 'http://example.com/é', 'https://docs.example.com/errors/quota?used=100%25', '/wiki/%c3%a9', '/50%+off%', '%zz/a b%20'], 'href_text': ['read this', 'docs'],
     'text': ['first text', 'second', 'téxt'],
     'status:error': [400, 418, '503 Service Unavailable', 599, 409], 'status:status': [200, 201, '202 Accepted', 299, 301],
 }
@@ -1893,6 +2007,9 @@ def _direct(ctx):
         # ---- HTTPError.__init__ / to_dict
         txt = lambda: rnd.choice([None, None, '', 'x', 'Some text'])   # noqa: E731
         title, desc, href, href_text = txt(), txt(), rnd.choice([None, '', 'http://example.com/a b', '/rel']), txt()
+        if rnd.random() < 0.6:
+            href = _rand_href(rnd, False)[1]
+            if rnd.random() < 0.3: href_text = rnd.choice([href, _rand_href(rnd, False)[1]])
         code = rnd.choice([None, None, 0, 7, -5])
         status_val = rnd.choice([400, 404, 409, 500, '418 I\'m a teapot'])
         err = falcon.HTTPError(status_val, title=title, description=desc, href=href, href_text=href_text, code=code)
@@ -1904,8 +2021,13 @@ def _direct(ctx):
         if href: expd['link'] = {'text': href_text if href_text else LINK_DEFAULT, 'href': _rfc3986_encode(href), 'rel': 'help'}
         case2 = {'title': title, 'description': desc, 'code': code, 'href': href, 'href_text': href_text, 'status': status_val}
         ctx.oracle(name_dict, dict(d) == expd and list(d) == list(expd), f'to_dict() = {d!r}, expected {expd!r}', case2)
+        if href:
+            lw = _href_faithful((d.get('link') or {}).get('href'), href)
+            ctx.oracle(NAME_LINK, lw is None, None if lw is None else 'to_dict(): ' + lw, case2)
+            ctx.count('d_href_' + _href_class(href))
         sess.case(case2)
         sess.op(f'todict {_flag(title)} {_flag(desc)} {"none" if code is None else code} {_flag(href)} {_flag(href_text)}', _doc_fields(d, line))
+        sess.op(f'link {_cps(href)} {_flag(href_text)}', _link_reply(d))
         # ---- _compose_error_response / _compose_status_response on a response that already carries headers
         hn = ['X-Err', 'x-err', 'X-ERR', 'Retry-After', 'Vary', 'vary', 'Content-Type', 'content-type', 'X-Other']
         if rnd.random() < 0.06:
@@ -1988,6 +2110,6 @@ LEVEL_TEXT = ('Machine-checked proofs (Lean 4) about transcriptions of add_error
               'status and headers of the HTTPError/HTTPStatus are kept; a body defined by the handler is sent whatever stream was attached before the raise. The models are tied to falcon/app.py, falcon/asgi/app.py, falcon/app_helpers.py and falcon/http_error.py on every run by '
               'differential correspondences (the real app, WSGI and ASGI, every raise site incl. body rendering, raised objects with hostile dunder methods / metaclasses / cause chains, Accept headers in any letter case and with non-ASCII octets, responses that already carry Accept-like Vary values or a stream, and the modelled functions called directly on exotic configurations, against the '
               'compiled models) and independent oracles written from the statement decide failing inputs, including the faithfulness of the default JSON/XML error bodies over arbitrary Unicode.')
-LEVEL_NOTE = ('Trusted: Lean kernel + standard axioms; the correspondence harness and oracles; json/ElementTree decoders. Encoder faithfulness (json.dumps, ElementTree, media handlers, uri.encode) '
-              'is oracle-checked, not proved; the negotiation model covers ASCII Accept headers with plain decimal q values.')
+LEVEL_NOTE = ('Trusted: Lean kernel + standard axioms; the correspondence harness and oracles; json/ElementTree decoders. Encoder faithfulness (json.dumps, ElementTree, media handlers) '
+              'is oracle-checked, not proved; the link href is proved faithful in the model (Ek.link_href_faithful over Us.encode) and tied to the real constructor / emitted documents by the `link` correspondence; the negotiation model covers ASCII Accept headers with plain decimal q values.')
 TECHNIQUE = 'Lean 4 proofs about the handler-resolution/handling/negotiation/composition models + differential correspondence (real app and functions vs models, WSGI and ASGI) + statement oracles with stdlib decoding'
